@@ -210,6 +210,34 @@ def run(ctx: Ctx, tier: str) -> Result:
         res.rule(rid, text)
     p, t, g = ctx.prog, ctx.types, ctx.guards
 
+    # ---------------- INT (first: the table below reads the limits through it)
+    gi = p.func(LA + ".__get_int")
+    tries = list(t.nodes_in(gi, ast.Try))
+    ok = False
+    if len(tries) == 1:
+        tr = tries[0]
+        conv = [c for c in ast.walk(tr) if isinstance(c, ast.Call) and "builtins.int" in t.resolve_call(c, gi).ext]
+        for h in tr.handlers:
+            if g.catches(h, "ValueError", gi) and not g.reraises(h):
+                rets = [n for n in ast.walk(h) if isinstance(n, ast.Return)]
+                if rets and all(r.value is not None and norm(r.value) == gi.params[2] for r in rets) and conv and \
+                        any(paths.within(p, conv[0], b) for b in tr.body):
+                    ok = True
+    # the parsed value depends on the text and on the default of the limit that is read, on nothing remembered from other reads
+    impure = [n for n in t.nodes_in(gi, ast.Name) if isinstance(n.ctx, ast.Load) and n.id in gi.module.consts
+              and isinstance(gi.module.consts[n.id], (ast.Dict, ast.List, ast.Set, ast.Call))]
+    impure += [n for n in t.nodes_in(gi, (ast.Global, ast.Nonlocal))]
+    for n in impure[:1]:
+        ok = None
+        res.fail(Finding("C04.INT", gi.qname, n, gi.loc(n), "the integer value of a limit is looked up in state shared between reads (`%s`): an unparsable text gets the default of "
+                         "whichever limit met it first (fire_count 'x' after fire_period 'x' allows 1000 collections)" % norm(n)[:40]))
+    if ok is None:
+        pass
+    elif ok:
+        res.ok("C04.INT", {"int() failure -> default": gi.loc()})
+    else:
+        res.fail(Finding("C04.INT", gi.qname, "<try: int(...) except ValueError: return default>", gi.loc(), "an unparsable integer setting does not fall back to the default"))
+
     # ---------------- TABLE
     fi = p.func(LA + ".can_trigger")
     tb = Table(ctx, fi)
@@ -359,23 +387,6 @@ def run(ctx: Ctx, tier: str) -> Result:
     identity_rule(ctx, res, "C04.STATE")
 
     # ---------------- INT
-    gi = p.func(LA + ".__get_int")
-    tries = list(t.nodes_in(gi, ast.Try))
-    ok = False
-    if len(tries) == 1:
-        tr = tries[0]
-        conv = [c for c in ast.walk(tr) if isinstance(c, ast.Call) and "builtins.int" in t.resolve_call(c, gi).ext]
-        for h in tr.handlers:
-            if g.catches(h, "ValueError", gi) and not g.reraises(h):
-                rets = [n for n in ast.walk(h) if isinstance(n, ast.Return)]
-                if rets and all(r.value is not None and norm(r.value) == gi.params[2] for r in rets) and conv and \
-                        any(paths.within(p, conv[0], b) for b in tr.body):
-                    ok = True
-    if ok:
-        res.ok("C04.INT", {"int() failure -> default": gi.loc()})
-    else:
-        res.fail(Finding("C04.INT", gi.qname, "<try: int(...) except ValueError: return default>", gi.loc(), "an unparsable integer setting does not fall back to the default"))
-
     # ---------------- KEYS
     reads = [(f, k, n) for f, k, n in action_config_reads(ctx) if f.cls is not None and f.cls.qname == LA]
     keys = set()
